@@ -11,7 +11,7 @@ import (
 
 func init() {
 	register("C19", "other", func(c *Ctx) {
-		c.Run.Explainf("C19 (every invocation terminates with output or a diagnostic): the obligation table of moq's four packages is closed — every construct that can panic or fail to terminate (index and slice expressions, unchecked type assertions, stores into possibly nil maps, dereferences of pointers that come with an ok flag, indexed go/types accessors At/Method/Field/Term/EmbeddedType/ExplicitMethod, integer division, explicit panic, `for` without condition, calls inside a call-graph cycle) is enumerated from the type-checked syntax and either discharged by a rule (dominating length/emptiness/ok guard shown by go/cfg exploration under the negated assumption; loop bound equal to the matching Len/Num accessor on the same receiver or to the length the slice was made with; nil-safe method; recursion whose argument is a strict component of the switched value) or matched with a frozen table line that carries a one-line reason (go/types invariants, SplitN/Split contracts). New sites, changed operands and lost guards are reported. Lookup errors carry the requested name; errors on the Mock path are propagated (G-MOCK/error-returned); template execution cannot fail on a missing field (every field chain resolves in the abstract expansion). Of promptness only one necessary condition is decided: no recursive function evaluates the same recursive call twice on a path (no exponential blow-up in the nesting depth of a type). NOT decided: promptness in general and termination inside packages.Load / go list / go/format.")
+		c.Run.Explainf("C19 (every invocation terminates with output or a diagnostic): the obligation table of moq's four packages is closed — every construct that can panic or fail to terminate (index and slice expressions, unchecked type assertions, stores into possibly nil maps, dereferences of pointers that come with an ok flag, indexed go/types accessors At/Method/Field/Term/EmbeddedType/ExplicitMethod, integer division, explicit panic, `for` without condition, calls inside a call-graph cycle) is enumerated from the type-checked syntax and either discharged by a rule (dominating length/emptiness/ok guard shown by go/cfg exploration under the negated assumption; loop bound equal to the matching Len/Num accessor on the same receiver or to the length the slice was made with; nil-safe method; recursion whose argument is a strict component of the switched value) or matched with a frozen table line that carries a one-line reason (go/types invariants, SplitN/Split contracts). New sites, changed operands and lost guards are reported. Lookup errors carry the requested name; errors on the Mock path are propagated (G-MOCK/error-returned); template execution cannot fail on a missing field (every field chain resolves in the abstract expansion). Of promptness only one necessary condition is decided: no recursive function evaluates the same recursive call twice on a path (no exponential blow-up in the nesting depth of a type). No function of the generator calls, while it holds a sync mutex on every path to the call, a function that locks the same mutex again through calls on the same receiver (G-LOCK/reentrant; today the generator owns no mutex, a planted example is analysed on every run). NOT decided: promptness in general and termination inside packages.Load / go list / go/format.")
 		t0 := time.Now()
 		tick := func(what string) {
 			if os.Getenv("MOQLINT_TIMING") != "" {
@@ -29,6 +29,8 @@ func init() {
 		loadErrorsTable(c)
 		conflictTerminationTable(c)
 		cliNoReadOfOut(c)
+		gen.CheckGeneratorLocks(c.Run, c.Prog)
+		gen.PositiveControlLocks(c.Run, c.Prog)
 		tick("others")
 		gen.PositiveControlPanics(c.Run, c.Prog)
 		tick("controls")
